@@ -13,13 +13,13 @@ from .par import pmap
 
 SETTINGS = {
     # pid: tier: (cfgs, scenario budget, scales, chunk, C->S episodes)
-    "C08": {"quick": (["MC_AggSymmetry_C08_quick.cfg"], 700, [0, -14, -20, 40], 6, 120),
+    "C08": {"quick": (["MC_AggSymmetry_C08_quick.cfg"], 600, [0, -14, -20, 40], 6, 100),
             "thorough": (["MC_AggSymmetry_C08_thorough.cfg", "MC_AggSymmetry_mixed_thorough.cfg"], 6000,
                          [0, -13, -14, -15, -17, -20, -34, 20, 40], 8, 500)},
-    "C09": {"quick": (["MC_AggSymmetry_C09_quick.cfg"], 900, [-10, -44, 0], 8, 120),
+    "C09": {"quick": (["MC_AggSymmetry_C09_quick.cfg"], 700, [-10, -44, 0], 8, 100),
             "thorough": (["MC_AggSymmetry_C09_thorough.cfg"], 6000, [-10, -44, 0, -24, 20], 8, 500)},
-    "C10": {"quick": (["MC_AggSymmetry_C10_quick.cfg"], 10 ** 9, [0, -14, -34, 40], 6, 120),
-            "thorough": (["MC_AggSymmetry_C10_thorough.cfg", "MC_AggSymmetry_mixed_thorough.cfg"], 10 ** 9,
+    "C10": {"quick": (["MC_AggSymmetry_C10_quick.cfg"], 10 ** 9, [0, -14, -34, 40], 6, 100),
+            "thorough": (["MC_AggSymmetry_C10_thorough.cfg"], 10 ** 9,
                          [0, -14, -20, -34, 20, 40], 8, 500)},
 }
 MODE_OF = {"C08": "cols", "C09": "scale", "C10": "rows"}
